@@ -128,7 +128,7 @@ MK_SNIPPETS = [None, {'foo': 'div.x>span{hi}'}, {'bad': 'a)'}, {'foo': 'ul>li*2'
                {'foo': 'bad'}, {'p': 'p.lead'}]
 MK_ABBRS = ['div', 'ul>li*3', 'a', 'p*', 'ul>li*', '.b>._e', '.block>.-elem_mod+.-x', 'bad', 'foo', 'a)', 'a[b="', '!',
             'ul>li.item$*2>{$#}', 'foo>bad', 'p{hi}+foo', 'input:t', 'a[href=x]{t}', '(a>b)*2+c', 'bad2', 'foo*2>bad',
-            '.b_m>.-e>.--f', 'p>{$#}', 'ul>li*>a', 'img', 'bad+p', 'p+bad', '']
+            '.b_m>.-e>.--f', 'p>{$#}', 'ul>li*>a', 'img', 'bad+p', 'p+bad', '', 'gs', 'gs>foo']
 MK_OPTIONS = [None, {'bem.enabled': True}, {'comment.enabled': True}, {'output.field': '@tabstop'},
               {'bem.enabled': True, 'output.field': '@tabstop'}, {'output.format': False},
               {'bem.enabled': True, 'bem.element': '-', 'comment.enabled': True}, {'jsx.enabled': True}]
@@ -142,7 +142,7 @@ CSS_SNIPPETS = [None, {'foo': 'margin:10'}, {'foo': 'padding:5 7'}, {'foo': 'mar
                 {'foo': 'margin:10', 'bad': 'margin:(('}, {'p': 'padding:4'}]
 CSS_ABBRS = ['m10', 'p10-20', 'foo', 'foo20', 'fz1.5', 'c#f', 'bd', 'lg(top, red)', 'd:n', 'pos:a', 'w100p', 'z1', 'op.5', 'bar',
              'm0-a', '@k', '!', '-', 'm10!', 'gt', 'm', 'p', 'foo+m', 'foo+foo', 'm+foo', 'bar+foo', 'zom', 'animic', 'fo', 'mt', 'p1.5',
-             'bad', 'trf:r', 'bgc#1', 'm-10--20', 'foo!', 'w', 'c:r(1)', '10', 'auto', '']
+             'bad', 'trf:r', 'bgc#1', 'm-10--20', 'foo!', 'w', 'c:r(1)', '10', 'auto', '', 'gfoo', 'gfoo+foo']
 CSS_OPTIONS = [None, {'stylesheet.intUnit': 'pt'}, {'stylesheet.intUnit': 'px'}, {'stylesheet.intUnit': ''},
                {'stylesheet.floatUnit': 'rem'}, {'stylesheet.intUnit': 'pt', 'stylesheet.floatUnit': 'cm'},
                {'stylesheet.unitAliases': {'e': 'em', 'p': 'pc', 'x': 'ex', 'r': 'rem'}}, {'stylesheet.shortHex': False},
@@ -152,6 +152,12 @@ CSS_OPTIONS = [None, {'stylesheet.intUnit': 'pt'}, {'stylesheet.intUnit': 'px'},
 CSS_SYNTAX = [None, 'css', 'scss', 'sass', 'less', 'stylus', 'sss']
 CSS_CONTEXT = [None, None, None, {'name': 'margin'}, {'name': '@@section'}, {'name': '@@property'}, {'name': 'foo'},
                {'name': '@@value'}]
+
+
+MK_GLOBAL = [{'markup': {'snippets': {'gs': 'section.g>p'}}, 'html': {'options': {'output.indent': '  '}}},
+             {'markup': {'options': {'bem.enabled': True}}, 'xml': {'snippets': {'gs': 'x-y'}}}]
+CSS_GLOBAL = [{'stylesheet': {'snippets': {'gfoo': 'margin:3'}}, 'css': {'options': {'stylesheet.intUnit': 'mm'}}},
+              {'stylesheet': {'options': {'stylesheet.floatUnit': 'vw'}}, 'scss': {'snippets': {'gfoo': 'padding:2.5', 'foo': 'top:1'}}}]
 
 
 def _put(d, k, v):
@@ -173,6 +179,8 @@ def rand_mk_dict(rng):
     _put(d, 'context', rng.choice(MK_CONTEXT) if rng.random() < 0.3 else None)
     if rng.random() < 0.1:
         d['maxRepeat'] = 2
+    if rng.random() < 0.12:
+        d['@global'] = rng.choice(MK_GLOBAL)
     return d
 
 
@@ -186,6 +194,8 @@ def rand_css_dict(rng, ncaches):
         d['cache'] = rng.randrange(ncaches)
     if rng.random() < 0.15:
         d['text'] = rng.choice(TEXTS)
+    if rng.random() < 0.15:
+        d['@global'] = rng.choice(CSS_GLOBAL)
     return d
 
 
